@@ -81,6 +81,8 @@ func (e event) String() string {
 		return fmt.Sprintf("dial:%d", e.epoch)
 	case "rep":
 		return fmt.Sprintf("rep:%d", e.epoch)
+	case "end":
+		return fmt.Sprintf("end:%d", e.epoch)
 	case "back":
 		return fmt.Sprintf("back:%d:%d:%s", e.req, e.epoch, e.note)
 	}
@@ -153,10 +155,12 @@ type killConn struct {
 	once  sync.Once
 	mu    sync.Mutex
 	legs  []net.Conn // proxy side sockets
+	killed atomic.Bool // closed by the harness
 	ready chan struct{}
 }
 
 func (k *killConn) kill(mode string) {
+	k.killed.Store(true)
 	k.once.Do(func() {
 		if mode == "local" {
 			_ = k.Conn.Close()
@@ -605,12 +609,19 @@ func (w *world) run(ctx context.Context, id string, sc scenario) outcome {
 			}
 			k := &killConn{Conn: c, ready: make(chan struct{}), legs: []net.Conn{pc, up}}
 			close(k.ready)
-			go relay(pc, up)
 			s.mu.Lock()
 			s.conns = append(s.conns, k)
-			s.log = append(s.log, event{kind: "dial", epoch: len(s.conns) - 1})
+			di := len(s.conns) - 1
+			s.log = append(s.log, event{kind: "dial", epoch: di})
 			s.cond.Broadcast()
 			s.mu.Unlock()
+			go func() {
+				relay(pc, up)
+				if !k.killed.Load() {
+					// the connection ended without the harness killing it (server or client closed it)
+					s.add(event{kind: "end", epoch: di})
+				}
+			}()
 			return k, nil
 		},
 	})
@@ -713,6 +724,25 @@ func (w *world) run(ctx context.Context, id string, sc scenario) outcome {
 			case "returned":
 				s.waitFor("all invocations return", returned(n))
 				kill()
+			}
+			if sc.kill != "none" && sc.end == "reconnect" {
+				// keep the replacement connection busy: the test server drops idle connections after 30 s,
+				// which would hide an invocation that missed its wake-up (it would be woken by the next,
+				// spontaneous replacement)
+				kctx, kcancel := context.WithCancel(ictx)
+				defer kcancel()
+				go func() {
+					for {
+						select {
+						case <-kctx.Done():
+							return
+						case <-time.After(2 * time.Second):
+						}
+						cctx2, c2 := context.WithTimeout(kctx, 20*time.Second)
+						_ = client.SendMessage(cctx2, &tg.MessagesSendMessageRequest{Peer: &tg.InputPeerUser{}, Message: "keepalive"})
+						c2()
+					}
+				}()
 			}
 			if sc.end == "close" {
 				if sc.kill == "none" {
